@@ -219,7 +219,7 @@ var invalidations = []invalidation{
 		if k == nil {
 			return false
 		}
-		k.Name = []string{"KEY_NOPE", "key_a", "A", "xzz", "x1ffff", "BTN_", "ABS_X"}[r.Intn(7)]
+		k.Name = []string{"KEY_NOPE", "key_a", "A", "xzz", "x1ffff", "BTN_", "ABS_X", "x1fz", "x1e_", "x1g", "x3-b", "x_1f", "x"}[r.Intn(13)]
 		return true
 	})},
 	{"unknown axis name", descEdit(func(r *simrt.Rng, d *model.Desc) bool {
@@ -227,16 +227,16 @@ var invalidations = []invalidation{
 		if a == nil {
 			return false
 		}
-		a.Name = []string{"ABS_NOPE", "abs_x", "KEY_A", "xqq"}[r.Intn(4)]
+		a.Name = []string{"ABS_NOPE", "abs_x", "KEY_A", "xqq", "x0z", "x1_", "x2-1"}[r.Intn(7)]
 		return true
 	})},
 	{"unknown key name in action_mapping", descEdit(func(r *simrt.Rng, d *model.Desc) bool {
-		d.Actions = append(d.Actions, model.ActionKey{Name: "KEY_NOPE", Action: "panic"})
+		d.Actions = append(d.Actions, model.ActionKey{Name: []string{"KEY_NOPE", "x1fz", "x3-b", "x10000"}[r.Intn(4)], Action: "panic"})
 		return true
 	})},
 	{"unknown key name in exit_sequence", descEdit(func(r *simrt.Rng, d *model.Desc) bool {
 		d.HasExit = true
-		d.Exit = append(d.Exit, model.ActionKey{Name: "KEY_NOPE"})
+		d.Exit = append(d.Exit, model.ActionKey{Name: []string{"KEY_NOPE", "x1fz", "x1g", "x10000"}[r.Intn(4)]})
 		return true
 	})},
 	{"unknown note name", descEdit(func(r *simrt.Rng, d *model.Desc) bool {
@@ -565,7 +565,14 @@ func runW4C12(t *testing.T, job *Job, seed uint64, rp *Replay) RunOut {
 			d.ID = [4]uint16{otherID.Bus, otherID.Vendor, otherID.Product, otherID.Version}
 		case "broken":
 			d.ID = [4]uint16{devID.Bus, devID.Vendor, devID.Product, devID.Version}
-			switch marker % 6 {
+			switch marker % 8 {
+			case 6:
+				// ... and one on which it panics with a plain string rather than an error value
+				t := d.TOML()
+				return []byte(strings.Replace(t, "octave = ", "octave = 1979-05-27 #", 1))
+			case 7:
+				t := d.TOML()
+				return []byte(strings.Replace(t, "semitone = ", "semitone = 07:32:00 #", 1))
 			case 4:
 				// a document on which go-toml v2.0.3 panics instead of returning an error
 				t := d.TOML()
